@@ -3518,6 +3518,10 @@ GRgetlutid(int32 riid, int32 lut_index)
     if (HAatom_group(riid) != RIIDGROUP || lut_index != 0)
         HGOTO_ERROR(DFE_ARGS, FAIL);
 
+    /* the group bits alone do not make the ID one that is currently issued */
+    if (NULL == HAatom_object(riid))
+        HGOTO_ERROR(DFE_RINOTFOUND, FAIL);
+
     ret_value = (riid);
 
 done:
